@@ -74,6 +74,7 @@ PROPS = {
                "monitors: ASan (double free, use-after-free, overflow), LeakSanitizer recoverable check every 16 histories and at exit, conservation ledger (library-allocated live blocks and dlopen balance back to the pre-step value after every self-contained step and to the baseline at the end of each history); "
                "plus a systematic part: every erasure set within tolerance of all 38 flat-XOR tables (exhaustive; covers each failure-pattern branch) and of RS/ISA-L shapes, decode+cleanup and reconstruct of every erased index with ledger delta 0 per case; "
                "non-trivial = every history / erasure set; distinct = history index/seed or (config, erasure set)",
+               extra_runs=[{"name": "plain-oom", "flavour": "plain", "driver": "drv_api_ledger", "args": ["--mode", "oom"]}],
                require_stats=["rc_decode_0", "rc_decode_EINSUFFFRAGS", "rc_decode_EBADHEADER", "rc_reconstruct_0", "rc_reconstruct_EINSUFFFRAGS", "rc_reconstruct_EINVALIDPARAMS",
                               "rc_create_EBACKENDINITERR", "rc_create_EBACKENDNOTAVAIL", "rc_create_EINVALIDPARAMS", "rc_create_EBACKENDNOTSUPP", "rc_encode_0", "rc_invalid_arg_call_EINVALIDPARAMS"]),
     "C17": api("C17", "fault_enumeration",
